@@ -30,8 +30,9 @@ def cases(run: Run):
             "slow": [rng.random() < 0.25 for _ in range(ns)], "narrow": rng.random() < 0.4, "seed": rng.randint(1, 10**6), "orders": rng.sample(range(1, 1000), run.n(3, 6)),
             # serendipitous observations on (with the all-visible policy and a wide cone a sensor then reports the same target from several of its
             # jobs in one step); agent id 0 is a legal id
-            "bg": rng.random() < 0.5, "wide": rng.random() < 0.5, "sid0": rng.random() < 0.35,
+            "bg": rng.random() < 0.5, "wide": rng.random() < 0.5, "sid0": rng.random() < 0.35, "outk": rng.choice([1, 1, 2, 3]),
         })
+        out[-1]["steps"] = out[-1]["outk"] * max(1, out[-1]["steps"] // out[-1]["outk"])  # the run ends on a save
     out.extend(mixed_outcome_cases(rng))
     # one sensor reporting the same target from several of its jobs in a step: all-visible policy, wide cones, serendipitous observations on
     out.append({"ns": rng.randint(1, 2), "nt": rng.randint(2, 3), "decision": "AllVisibleDecision", "steps": 3, "displace": [False] * 3, "slow": [False] * 2, "narrow": False,
@@ -73,7 +74,8 @@ def build_case(c):
         v = v / np.linalg.norm(v) * np.sqrt(398600.4418 / np.linalg.norm(r))
         targets.append(scen.target_cfg(10001 + k, r, v))
     eng = [scen.engine_cfg(1, targets, sensors, decision=c["decision"], seed=c["seed"] % 1000)]
-    cfg = scen.scenario_cfg(START, 60, 60 * (c["steps"] + 1), eng, seed=c["seed"])
+    # the database is written every `outk` steps: what the steps in between produced waits in the engine until then
+    cfg = scen.scenario_cfg(START, 60, 60 * (c["steps"] + 1), eng, seed=c["seed"], out_step=60 * c.get("outk", 1))
     app = scen.build(cfg)
     # truth displaced from the estimate for some targets: the sensor points at the estimate and may miss
     for k, d in enumerate(c["displace"]):
@@ -100,6 +102,8 @@ def run_order(c, order_seed):
     import resonaate.parallel.tasking_execution as te
     import resonaate.parallel.tasking_reward_generation as trg
 
+    from resonaate.physics.time.stardate import JulianDate, ScenarioTime
+
     app = build_case(c)
     rng = random.Random(order_seed)
     if order_seed == 0:
@@ -125,7 +129,8 @@ def run_order(c, order_seed):
         with scen.completion_order(chooser):
             for k in range(c["steps"]):
                 processed.clear()
-                app.stepForward()
+                # one step through the real run loop, which also writes the database on output steps
+                app.propagateTo(JulianDate(ScenarioTime(60.0 * (k + 1)).convertToJulianDate(app.clock.julian_date_start)))
                 e = list(app._tasking_engines.values())[0]
                 obs = sorted((o.sensor_id, o.target_id, digest(o.measurement_states)) for o in e.observations)
                 miss = sorted((m.sensor_id, m.target_id, str(m.reason)) for m in e.missed_observations)
@@ -244,8 +249,13 @@ def oracle_single(run: Run, c, res):
         rows = res["rows"][key]
         if key != "obs" and len(rows) != len(set(rows)):
             fails.append(("stored-duplicates", f"duplicate rows in table {key}"))
+    # every record a step produced is stored, once (the run ends on a save)
     n_obs = sum(len(st["obs"]) for st in res["steps"])
     n_miss = sum(len(st["miss"]) for st in res["steps"])
+    if len(res["steps"]) % c.get("outk", 1) == 0:
+        if len(res["rows"]["obs"]) != n_obs or len(res["rows"]["miss"]) != n_miss:
+            fails.append(("stored-records", f"the steps produced {n_obs} observations and {n_miss} missed observations, the database holds {len(res['rows']['obs'])} and {len(res['rows']['miss'])} "
+                                            f"(database written every {c.get('outk', 1)} steps, {len(res['steps'])} steps, decision {c['decision']})"))
     return fails
 
 
